@@ -95,7 +95,8 @@ func VJoin() {
 		if vrt.Param("spread", 0) == 1 {
 			// the inputs are those of the call: a caller may pass a slice with `...`
 			// and reuse it as soon as Join has returned
-			args := []<-chan v12elem{ins[0], ins[1]}
+			args := make([]<-chan v12elem, 2, 4) // with spare capacity, as a slice built by append has
+			args[0], args[1] = ins[0], ins[1]
 			out = Join(ctx, args...)
 			idle := make(chan v12elem)
 			close(idle)
